@@ -93,6 +93,7 @@ func xbSnapshot(c *Chain, ctx sdk.Context, withMem bool) Snapshot {
 func xbOracleMem() map[string]string {
 	m := map[string]string{}
 	defer func() { _ = recover() }()
+	xbOracleMemAgc(m) // dom_atomic_oracle.go: + aggregator context, when the atomic domain asked for it
 	cs := oraclekeeper.GetCaches()
 	if cs == nil {
 		return m
